@@ -302,6 +302,47 @@ class Discharger:
         return None, "census", "call of panicking API %s" % what
 
     # ------------------------------------------------------------ explicit panics
+    def assert_holds(self, f, cond):
+        """(proved, why) for a condition over values bound by the parser steps of `f`: conjunctions of `!X.is_empty()`,
+        `X.len() >= n`, `X.len() > n`, `X.len() != 0`, `X.len() <= n`, `X.len() < n` where X is the text / list a repetition with the
+        stated bounds produced (take_while(m..=M), repeat(m..), separated(m..), repeat_till(m..))."""
+        cond = rx.peel(cond)
+        if cond.get("k") == "binary" and cond["op"] == "&&":
+            a, b = self.assert_holds(f, cond["lhs"]), self.assert_holds(f, cond["rhs"])
+            return (a[0] and b[0]), "%s; %s" % (a[1], b[1])
+        try:
+            bnd = self.g.bindings(self.b.fn_ir(f.key))
+        except F.AnchorMissing:
+            bnd = {}
+
+        def bounds(name):
+            p = bnd.get(name)
+            while p is not None and p["t"] in ("ctx", "cut"):
+                p = p["p"]
+            if p is not None and p["t"] in ("set", "rep", "sep", "reptill") and "min" in p:
+                return p["min"], p.get("max")
+            return None
+
+        if cond.get("k") == "unary" and cond["op"] == "!":
+            inner = rx.peel(cond["e"])
+            if inner.get("k") == "mcall" and inner["m"] == "is_empty" and not inner["args"]:
+                nm = rx.var_name(rx.peel(inner["recv"]))
+                bd = bounds(nm) if nm else None
+                if bd is not None:
+                    return bd[0] >= 1, "`%s` is the result of a repetition with lower bound %d" % (nm, bd[0])
+            return False, "`%s` not understood" % src(cond)[:50]
+        if cond.get("k") == "binary" and cond["op"] in (">=", ">", "!=", "<=", "<"):
+            l_, r_ = rx.peel(cond["lhs"]), rx.peel(cond["rhs"])
+            n_ = rx.int_const(r_)
+            if l_.get("k") == "mcall" and l_["m"] == "len" and not l_["args"] and n_ is not None:
+                nm = rx.var_name(rx.peel(l_["recv"]))
+                bd = bounds(nm) if nm else None
+                if bd is not None:
+                    lo, hi = bd
+                    ok = {">=": lo >= n_, ">": lo > n_, "!=": (lo > n_) or (hi is not None and hi < n_), "<=": hi is not None and hi <= n_, "<": hi is not None and hi < n_}[cond["op"]]
+                    return ok, "`%s` has between %d and %s elements" % (nm, lo, hi if hi is not None else "∞")
+        return False, "`%s` not understood" % src(cond)[:50]
+
     def explicit_panic(self, s, f, mac):
         fn = f.key
         # which match arm holds the macro?  (the ord-th occurrence in source order)
@@ -310,6 +351,15 @@ class Discharger:
             for arm in mt["arms"]:
                 if find_all(arm["body"], lambda n: n.get("k") == "macro" and n["name"] == mac) and not find_all(arm["body"], lambda n: n.get("k") == "match"):
                     holders.append((mt, arm))
+        if not holders and mac in ("assert", "debug_assert"):
+            # an assertion that restates what the parser steps above it have established (a run of at least one character is
+            # not empty): it cannot fire.  Every assertion of the function must be proved.
+            nodes = find_all(f.body, lambda n: n.get("k") == "macro" and n["name"] == mac)
+            if nodes and all(nd.get("args") for nd in nodes):
+                res = [self.assert_holds(f, nd["args"][0]) for nd in nodes]
+                if all(r_[0] for r_ in res):
+                    return True, "assert-proved", "%s!(%s): %s" % (mac, "; ".join(src(nd["args"][0])[:60] for nd in nodes), "; ".join(r_[1] for r_ in res))
+                return None, "census", "%s!(..) in %s: condition not established by the parser steps (%s)" % (mac, fn, "; ".join(r_[1] for r_ in res if not r_[0]))
         if not holders:
             return None, "census", "%s!() outside a match arm in %s" % (mac, fn)
         mt, arm = holders[min(s["ord"], len(holders)) - 1]
